@@ -30,9 +30,9 @@ func OutDir() string {
 
 // LeanStatus is what bin/lean-status wrote.
 type LeanStatus struct {
-	Property  string `json:"property"`
-	BuildOK   bool   `json:"build_ok"`
-	Theorems  []struct {
+	Property string `json:"property"`
+	BuildOK  bool   `json:"build_ok"`
+	Theorems []struct {
 		Name   string   `json:"name"`
 		Axioms []string `json:"axioms"`
 		OK     bool     `json:"ok"`
@@ -131,17 +131,17 @@ type Run struct {
 	Start    time.Time
 	Lean     *LeanStatus
 
-	Evaluations int
-	Distinct    map[string]bool // distinct non-trivial case signatures
-	Rule        string
-	Samples     []interface{}
-	Dist        map[string]int // measured distribution (tags, statuses, …)
-	Extra       map[string]interface{}
-	TracesValidated int
+	Evaluations          int
+	Distinct             map[string]bool // distinct non-trivial case signatures
+	Rule                 string
+	Samples              []interface{}
+	Dist                 map[string]int // measured distribution (tags, statuses, …)
+	Extra                map[string]interface{}
+	TracesValidated      int
 	DisagreementsChecked int
-	Exhaustive  bool
-	Assumptions []string
-	Trusted     []string
+	Exhaustive           bool
+	Assumptions          []string
+	Trusted              []string
 
 	Violations []Violation
 	KnownHits  map[string]int // finding id -> cases that fell into its class and failed
